@@ -12,6 +12,11 @@ STRENGTHENED = {
     "C09-2": "first caught only as a model/code disagreement; the oracle now compares the zck_close verdict of a read after validations",
     "C03-2": "missed at first; copy scenarios with a source whose chunk digests are longer than the target's were added",
     "C05-2": "missed at first; the in-memory target index of the harness now gives every chunk an uncompressed size different from its stored size",
+    "C02-1": "missed at first; every re-sealed structure mutant is now also offered under the detached-header magic (the five magic bytes are outside the header checksum)",
+    "C15-1": "missed at first; call sequences with a verdict taken before the reads (validate / find-valid) and with zck_clear_error + retry were added (oracle only)",
+    "C15-2": "first caught only as a model/code disagreement; the clear-error-and-retry sequences give the failing input",
+    "C04-1": "missed at first (libcurl's fragmentation is not controlled): the range server can now deliver multipart bodies in pieces ending exactly at each part's last data byte; also caught by C05",
+    "C04-3": "missed at first; the range server can now use boundaries made of the punctuation RFC 2046 allows (apostrophe included); also caught by C05",
     "C01-3": "caught as HANG; the per-case watchdog was shortened so that the check stays fast",
 }
 
